@@ -54,6 +54,10 @@ mod task;
 
 mod io;
 
+#[cfg(feature = "verif-hooks")]
+#[doc(hidden)]
+pub mod verif_api;
+
 const MAX_COMMIT_CONCURRENCY: usize = 64;
 
 /// A full value stored within the trie.
